@@ -28,5 +28,5 @@ def run(ck):
               "and an adversary presenting revoked, malformed and path-like identifiers and attempting fixation; an executable model predicts what load() must show; a wrapping storage and an open() shim check every key/path "
               "addressed. non-trivial = distinct world configurations",
               "requests", "worlds", min_evals=20000,
-              required_nonzero=("loads_with_session", "sessions_ended", "adversary_requests", "ids_issued", "fixation_attempts", "exposed_cookie_checks", "both_saved_on_server", "both_saved_in_cookie",
+              required_nonzero=("loads_with_session", "sessions_ended", "ended_session_exposed_checks", "stale_exposed_cookies_at_ended_session", "adversary_requests", "ids_issued", "fixation_attempts", "exposed_cookie_checks", "both_saved_on_server", "both_saved_in_cookie",
                                 "requests_in_envelope_gap", "storage_calls", "paths_touched", "worlds_storage_network", "worlds_storage_files", "worlds_storage_memory", "worlds_location_client"))
